@@ -7,6 +7,7 @@ PROPS = {
     "C15": {
         "runs": {
             "quick": [{"harness": "zbuild", "args": ["--what", "bool", "--scope", "S1", "--nmax", 4]},
+                      {"harness": "zbuild", "args": ["--what", "bool", "--scope", "S1", "--board", "aligned", "--k", 8, "--nmax", 4]},
                       {"harness": "zbuild", "args": ["--what", "bool", "--scope", "S0", "--board", "twins", "--both", 1, "--k", 16, "--nmin", 4, "--nmax", 5]},
                       {"harness": "zbuild", "args": ["--what", "bool", "--scope", "S1", "--board", "twins", "--k", 8, "--nmin", 3, "--nmax", 4]},
                       {"harness": "zbuild", "args": ["--what", "open"]},
